@@ -85,8 +85,14 @@ func (l *Layouter) Layout(s string) []glyph.Info {
 	}
 
 	font := l.font
+	numGlyphs := font.NumGlyphs()
 	for i := range seq {
 		gid := seq[i].GID
+		if int(gid) >= numGlyphs {
+			// Substitutions (or the cmap) can yield glyph IDs which are
+			// not present in the font.  Such glyphs have no width.
+			continue
+		}
 		if !font.Gdef.IsMark(gid) {
 			seq[i].Advance = funit.Int16(font.GlyphWidth(gid)) // TODO(voss)
 		}
